@@ -33,7 +33,7 @@ func init() {
 		ID: "C19",
 		Explanation: `R19.1 fork-site access sets in ExtractZip: the worker goroutines (started in a loop, hence concurrent with each other) and the parent between fork and join share no location with a write and disjoint locksets (entry counters, progress, warned flag); ` +
 			`R19.2 the resume file (a pseudo-variable for the path in settings.ResumeFrom) is written by the workers only under a common lock, i.e. it has one ordered writer; ` +
-			`R19.3 every worker sends exactly one result on every path and the parent collects them; R19.4 the set of finished entries behind the marker is keyed by the entry index itself, not by a reduction of it. ` +
+			`R19.3 every worker sends exactly one result on every path and the parent collects them; R19.4 the set of finished entries behind the marker is keyed by the entry index itself, not by a reduction of it; R19.5 no function of package archiver that changes the tree (removes, creates, renames) examines a path with os.Stat, which follows links - entries are examined with Lstat, so that re-extraction over an existing tree stays idempotent for links. ` +
 			`NOT decided: tree equality, tar, symlink/dir recreation, and whether the marker value is a contiguous high-water mark (value-level; a lock is necessary, not sufficient).`,
 		Assumptions: []string{
 			"state.Consumer and the OnEntryDone / OnUncompressedSizeKnown callbacks are assumed internally synchronised",
@@ -629,6 +629,8 @@ func runC19(c *core.Ctx) {
 	c.Rule("R19.2", "resume marker has one ordered writer")
 	c.Rule("R19.3", "every worker reports exactly once; the parent collects")
 	c.Rule("R19.4", "the done-set behind the resume marker is keyed by the entry index itself (no modulo/shift/mask)")
+	c.Rule("R19.5", "entries are examined without following links")
+	ruleNoFollow(c, "R19.5", "/archiver")
 	ez := c.P.Fn("archiver", "ExtractZip")
 	if ez == nil {
 		c.Missing("R19.1", "archiver.ExtractZip", "not found")
@@ -789,6 +791,9 @@ func fixturesC15(fc *core.Ctx) map[string]bool {
 		}
 		s, _ := analyseForkSite(fc.P, fn, 4)
 		if len(s.units) > 0 && len(findConflicts(s)) > 0 {
+			rep[fn.Name()] = true
+		}
+		if len(followingStats(fn)) > 0 {
 			rep[fn.Name()] = true
 		}
 		core.Instrs(fn, func(in ssa.Instruction) {
